@@ -144,6 +144,11 @@ func (c *roCase) run() {
 			sqlh.NextClient(fmt.Sprintf("ro%d", nro), nil)
 			nro++
 			res = sqlh.QS(ro, "select s3db_refresh(?)", t)
+			// a read-only table can always be refreshed (F46: it holds no changes of its own, even when it
+			// keeps the merge of several versions in memory)
+			if strings.HasPrefix(res, "ERR") {
+				c.fail("s3db_refresh of a read-only table fails: " + res)
+			}
 		case 5:
 			what = "version"
 			res = sqlh.QS(ro, "select s3db_version(?)", t)
